@@ -22,7 +22,7 @@ def chiral_polygon():
     return np.array([[0, 0], [3, 0.5], [3.5, 2], [2, 3.25], [0.5, 2.5]], float)
 
 
-def make(cls, rng=None, base=None, offset=True, tilt=False, opposing=False):
+def make(cls, rng=None, base=None, offset=True, tilt=False, opposing=False, unit=1.0):
     """Construct a general-position, off-origin instance of the class. Returns (shape, ctor_args dict)."""
     import coxeter
 
@@ -60,6 +60,10 @@ def make(cls, rng=None, base=None, offset=True, tilt=False, opposing=False):
             a = dict(vertices=V)
             if cls == "ConvexSpheropolyhedron":
                 a["radius"] = 0.375
+    if unit != 1.0:      # the same shape in another length unit (an exact power-of-two rescaling of every length, the placement included)
+        for k_ in ("radius", "a", "b", "c", "center", "vertices"):
+            if k_ in a:
+                a[k_] = a[k_] * unit
     return getattr(S, cls)(**{k: (v.copy() if isinstance(v, np.ndarray) else ([x.copy() for x in v] if isinstance(v, list) else v)) for k, v in a.items()}), a
 
 
